@@ -408,6 +408,8 @@ def _worker(args):
     except Exception:
         pass
     factory_mod, factory_name, entry_idx, inv, tier = args[:5]
+    if inv is None:
+        inv = _SHARED["inv"]
     prefix = args[5] if len(args) > 5 else []
     import importlib
     t0 = time.time()
@@ -507,71 +509,20 @@ def cti_of(eng, ctx, model, entry):
     return {"entry": entry.name, "pre": pre, "params": params}
 
 
-def resilient_map(f, xs, jobs, ctxm):
-    """parallel map that survives a worker being killed (OOM killer, crash in the solver): units whose
-    pool broke are retried one at a time in fresh single-worker pools; a unit that kills its worker again
-    is returned as a crash record"""
-    if jobs == 1:
-        return [f(x) for x in xs]
-    import concurrent.futures as cf
-    out = [None] * len(xs)
-    try:
-        with cf.ProcessPoolExecutor(max_workers=jobs, mp_context=ctxm) as ex:
-            futs = {ex.submit(f, x): i for i, x in enumerate(xs)}
-            for fu in cf.as_completed(futs):
-                out[futs[fu]] = fu.result()
-        return out
-    except cf.process.BrokenProcessPool:
-        pass
-    for i, x in enumerate(xs):
-        if out[i] is not None:
-            continue
-        try:
-            with cf.ProcessPoolExecutor(max_workers=1, mp_context=ctxm) as ex:
-                out[i] = ex.submit(f, x).result()
-        except cf.process.BrokenProcessPool:
-            out[i] = {"entry": x[2], "idx": x[2], "crash": "worker process died while exploring this unit (killed?)",
-                      "violated": {}, "obligations": [], "paths": 0, "wall": 0, "cuts": [], "leftover": []}
-    return out
+_SHARED = {}     # set in the parent before the workers are forked (the clause sets are large)
 
 
 def dynamic_explore(units, jobs, ctxm, mk_unit):
     """work queue: every finished unit's unexplored alternatives are submitted at once (no batch barrier);
-    if a worker is killed, what is left is finished by resilient_map"""
-    if jobs == 1:
-        out, todo = [], list(units)
-        while todo:
-            r = _worker(todo.pop())
-            out.append(r)
-            todo += [mk_unit(r, p) for p in r.get("leftover", [])]
-        return out
-    import concurrent.futures as cf
-    results = []
-    todo = list(units)
-    try:
-        with cf.ProcessPoolExecutor(max_workers=jobs, mp_context=ctxm) as ex:
-            pending = {ex.submit(_worker, u): u for u in todo}
-            todo = []
-            while pending:
-                done, _ = cf.wait(list(pending), return_when=cf.FIRST_COMPLETED)
-                for fu in done:
-                    u = pending.pop(fu)
-                    try:
-                        r = fu.result()
-                    except cf.process.BrokenProcessPool:
-                        todo.append(u)
-                        raise
-                    results.append(r)
-                    for p in r.get("leftover", []):
-                        nu = mk_unit(r, p)
-                        pending[ex.submit(_worker, nu)] = nu
-    except cf.process.BrokenProcessPool:
-        todo += [u for u in pending.values() if u not in todo]
-    while todo:
-        part = resilient_map(_worker, todo, jobs, ctxm)
-        results += part
-        todo = [mk_unit(r, p) for r in part for p in r.get("leftover", [])]
-    return results
+    a worker that dies or exceeds its deadline is replaced and its unit retried once (pyvc/pool.py)"""
+    from . import pool as P
+
+    def fail(x, why):
+        return {"entry": x[2], "idx": x[2], "crash": why, "violated": {}, "obligations": [], "paths": 0, "wall": 0,
+                "cuts": [], "leftover": []}
+
+    return P.run(_worker, units, jobs, deadline_s=3600, on_fail=fail,
+                 expand=lambda r: [mk_unit(r, p) for p in r.get("leftover", [])])
 
 
 def initial_clauses(eng, universe):
@@ -645,8 +596,9 @@ def run_engine(factory_mod, factory_name, tier="quick", jobs=16, max_rounds=40, 
         # a cut point seen for the first time starts from the whole template
         inv_w = {c: ks for c, ks in inv.items()}
         inv_w["*"] = universe      # a cut point seen for the first time starts from the whole template
-        units = [(factory_mod, factory_name, i, inv_w, tier, []) for i in range(len(eng.entries))]
-        results = dynamic_explore(units, jobs, ctxm, lambda r, p: (factory_mod, factory_name, r["idx"], inv_w, tier, p))
+        _SHARED["inv"] = inv_w
+        units = [(factory_mod, factory_name, i, None, tier, []) for i in range(len(eng.entries))]
+        results = dynamic_explore(units, jobs, ctxm, lambda r, p: (factory_mod, factory_name, r["idx"], None, tier, p))
         crashed = [r for r in results if r.get("crash")]
         if crashed:
             return {"error": crashed[0]["crash"], "results": results, "inv": inv, "rounds": rounds}
